@@ -58,17 +58,35 @@ def svc_val(entries):
     return "%s/%s" % (e["l4_protocol"], e["destination_ports"][0])
 
 
+# the further attribute of a rule (field `opt` of the abstract rule): JSON key, value
+OPTS = {"log": ("logged", True), "tag": ("tag", "t1"), "dis": ("disabled", True), "dx": ("destinations_excluded", True),
+        "sx": ("sources_excluded", True), "v6": ("ip_protocol", "IPV6"), "prof": ("profiles", ["/infra/context-profiles/p1"]),
+        "scope2": ("scope", ["/infra/tier-0s/v2"])}
+OPT_DEFAULT = {"logged": False, "tag": "", "disabled": False, "destinations_excluded": False, "sources_excluded": False,
+               "ip_protocol": "IPV4", "profiles": [], "scope": ["/infra/tier-0s/v1"]}
+
+
 def rule_json(rid, r):
-    return {"resource_type": "Rule", "id": rid, "scope": ["/infra/tier-0s/v1"], "direction": r["dir"],
-            "ip_protocol": "IPV4", "sequence_number": r["seq"], "action": r["action"],
-            "source_groups": [term_out(r["src"])], "destination_groups": [term_out(r["dst"])],
-            "services": [svc_out(r["svc"])]}
+    j = {"resource_type": "Rule", "id": rid, "scope": ["/infra/tier-0s/v1"], "direction": r["dir"],
+         "ip_protocol": "IPV4", "sequence_number": r["seq"], "action": r["action"],
+         "source_groups": [term_out(r["src"])], "destination_groups": [term_out(r["dst"])],
+         "services": [svc_out(r["svc"])]}
+    if r.get("opt"):
+        k, v = OPTS[r["opt"]]
+        j[k] = v
+    return j
 
 
 def rule_abs(j):
+    opts = [o for o, (k, v) in OPTS.items() if j.get(k, OPT_DEFAULT[k]) == v]
+    for k, d in OPT_DEFAULT.items():
+        if j.get(k, d) not in (d, None) and not any(OPTS[o][0] == k for o in opts):
+            raise Broken("cmdparse: NSX rule attribute outside the modelled values: %s=%r" % (k, j.get(k)))
+    if len(opts) > 1:
+        raise Broken("cmdparse: NSX rule with several optional attributes: %r" % opts)
     return {"seq": j["sequence_number"], "action": j["action"], "dir": j["direction"],
             "src": term_in(j["source_groups"][0]), "dst": term_in(j["destination_groups"][0]),
-            "svc": svc_in(j["services"][0])}
+            "svc": svc_in(j["services"][0]), "opt": opts[0] if opts else ""}
 
 
 def render(cfg, dev):
